@@ -50,7 +50,7 @@ package bufprotocompile
 //@   ensures type-compile: err == nil ==> r.Type() == "COMPILE" && r.PluginName() == ""
 //@   ensures no-file-without-filename: err == nil && errorWithPos.GetPosition().Filename == "" ==> r.FileInfo() == nil
 //@   ensures file-is-compiler-path: err == nil && errorWithPos.GetPosition().Filename != "" ==> r.FileInfo() != nil && typeOf(r.FileInfo()) == typeId(*fileInfo) && cast(*fileInfo, r.FileInfo()).path == first(normalpath.NormalizeAndValidate(errorWithPos.GetPosition().Filename))
-//@   ensures external-path-is-resolved: err == nil && errorWithPos.GetPosition().Filename != "" ==> cast(*fileInfo, r.FileInfo()).externalPath == ite(fileAnnotationOptions.externalPathResolver != nil, fileAnnotationOptions.externalPathResolver(first(normalpath.NormalizeAndValidate(errorWithPos.GetPosition().Filename))), first(normalpath.NormalizeAndValidate(errorWithPos.GetPosition().Filename)))
+//@   assert before "return bufanalysis.NewFileAnnotation(" external-path-is-resolved: sourcePos.Filename != "" ==> cast(*fileInfo, fileInfo).externalPath == ite(fileAnnotationOptions.externalPathResolver != nil, fileAnnotationOptions.externalPathResolver(cast(*fileInfo, fileInfo).path), cast(*fileInfo, fileInfo).path)
 //@   canary ensures err != nil
 //
 // NewFileAnnotation stores what it is given (trusted: dynamic dispatch from the FileAnnotation interface to
